@@ -70,18 +70,23 @@ def universes(seed):
 
 
 def generate(ctx, sd):
-    glen = ctx.pick(16, 24)
-    per = ctx.pick(25, 170)
+    """two of three behaviours are "stepped" (physical steps exactly where the behaviour has them; mixed profile),
+    one is "auto" (1-byte TSI log files, level compactions enabled: every write and delete rolls and compacts the
+    log; churn profile: drops, re-creations and restarts dominate, longer)"""
     behs = []
     for i, u in enumerate(universes(ctx.seed)):
-        gc = {"U": u, "Shards": {1, 2}, "PhysShards": {1, 2}, "Slots": {0, 1}, "MaxGen": 99, "MaxFiles": 99, "MaxLevel": 7,
-              "MaxOps": 0, "DropMeas": ['"m1"', '"m2"', '"*"'], "DropPreds": ALL_PREDS, "Dev": [LINGER], "GenLen": glen}
-        ctx.write_cfg(sd, "G%d.cfg" % i, "GSpec", gc, extra="INVARIANT Emit")
-        b = ctx.tlc_generate(sd, "IndexGen", "G%d.cfg" % i, num=per, depth=glen + 1, seed=ctx.seed * 10 + i, timeout=900)[:per]
-        behs += b
-    # two of three behaviours are stepped (physical steps exactly where the behaviour has them), one is "auto"
-    for i, b in enumerate(behs):
-        b["mode"] = "auto" if i % 3 == 2 else "stepped"
+        for mode, profile, glen, per in (("stepped", '"mixed"', ctx.pick(16, 24), ctx.pick(16, 110)),
+                                         ("auto", '"churn"', ctx.pick(24, 32), ctx.pick(8, 55))):
+            gc = {"U": u, "Shards": {1, 2}, "PhysShards": {1, 2}, "Slots": {0, 1}, "MaxGen": 99, "MaxFiles": 99, "MaxLevel": 7,
+                  "MaxOps": 0, "DropMeas": ['"m1"', '"m2"', '"*"'], "DropPreds": ALL_PREDS, "Dev": [LINGER], "GenLen": glen,
+                  "Profile": profile}
+            cfg = "G%d%s.cfg" % (i, mode)
+            ctx.write_cfg(sd, cfg, "GSpec", gc, extra="INVARIANT Emit")
+            b = ctx.tlc_generate(sd, "IndexGen", cfg, num=per, depth=glen + 1, seed=ctx.seed * 10 + i, timeout=900)[:per]
+            for x in b:
+                x["mode"] = mode
+            behs += b
+    random.Random(ctx.seed).shuffle(behs)
     return behs
 
 
@@ -121,8 +126,8 @@ def run(ctx):
             if isinstance(v, int) and k not in ("partn",):
                 tot[k] = max(tot.get(k, 0), v) if k == "max_level" else tot.get(k, 0) + v
     ctx.cov["traces_validated_against_impl"] += tot.get("behaviours", 0)
-    if tot.get("level_compactions", 0) == 0 or tot.get("log_compactions", 0) == 0 or tot.get("drops_in_one_shard_only", 0) == 0 \
-            or tot.get("recreations", 0) == 0 or tot.get("reopens", 0) == 0:
+    if not ctx.violations and (tot.get("level_compactions", 0) == 0 or tot.get("log_compactions", 0) == 0 or tot.get("drops_in_one_shard_only", 0) == 0 \
+            or tot.get("recreations", 0) == 0 or tot.get("reopens", 0) == 0):
         raise Infra("vacuity: the replay did not exercise compactions / partial drops / re-creations / reopen: %s" % tot)
     extra = {"replayed_behaviours": tot.get("behaviours", 0), "replayed_steps": tot.get("steps", 0),
              "queries_compared": tot.get("queries", 0), "real_compactions": {k: tot.get(k, 0) for k in
